@@ -697,6 +697,10 @@ impl QuicMultiplexer {
                 Some(Connection::Established(conn)) => conn.quic_conn.lock().unwrap().on_timeout(),
             }
         }
+
+        // The closest deadline may be the one which has just fired: leaving it in place would
+        // keep the timer of the listening loop disarmed from now on
+        self.closest_deadline = self.deadlines.values().min().copied();
     }
 
     fn on_socket_message(&mut self, message: SocketMessage) -> io::Result<()> {
